@@ -353,6 +353,15 @@ func shapeLines(body *ast.BlockStmt) []string {
 					one(y.Else, depth+1)
 				}
 			}
+		case *ast.LabeledStmt:
+			st = append(st, pre+y.Label.Name+":")
+			one(y.Stmt, depth)
+		case *ast.BranchStmt:
+			b := y.Tok.String()
+			if y.Label != nil {
+				b += " " + y.Label.Name
+			}
+			st = append(st, pre+b)
 		case *ast.ForStmt:
 			h := "for"
 			if y.Cond != nil {
